@@ -60,10 +60,10 @@ type Step struct {
 	T     string   `json:"t,omitempty"`
 	Inc   int      `json:"inc,omitempty"`
 	Kind  string   `json:"kind,omitempty"`
-	Crash bool     `json:"crash,omitempty"`
-	Gates []Gate   `json:"gates"` // gates pending once the step has settled
-	Done  []string `json:"done"`  // tokens done once the step has settled
-	Spret []string `json:"spret"` // Spawn calls that have returned
+	Crash string   `json:"crash,omitempty"` // "" | "plain" | "internal"
+	Gates []Gate   `json:"gates"`           // gates pending once the step has settled
+	Done  []string `json:"done"`            // tokens done once the step has settled
+	Spret []string `json:"spret"`           // Spawn calls that have returned
 }
 
 type Scenario struct {
@@ -72,6 +72,7 @@ type Scenario struct {
 	Inbox   int    `json:"inbox"`
 	Steps   []Step `json:"steps"`
 	NEvents int    `json:"nevents"` // events the model publishes for model actors
+	Racy    bool   `json:"racy"`    // the behaviour passes through states where two actors can move on their own
 }
 
 // ------------------------------------------------------------------ output
@@ -129,7 +130,7 @@ type ping struct{}
 type pong struct{}
 
 type grant struct {
-	crash   bool
+	crash   string
 	abandon bool
 }
 
@@ -152,24 +153,25 @@ func (a *arrival) release(g grant) {
 }
 
 type harness struct {
-	cfg     Config
-	sc      Scenario
-	e       *actor.Engine
-	seq     atomic.Int64
-	arrive  chan *arrival
-	mu      sync.Mutex
-	log     []Entry
-	events  []Event
-	incs    map[string]int
-	pids    map[string]*actor.PID
-	inside  map[string]int
-	overlap bool
-	chain   map[string][]int
-	chainOK map[string]bool
-	ctxs    map[string]context.Context
-	issued  []string
-	over    atomic.Bool
-	evCount atomic.Int64
+	cfg       Config
+	sc        Scenario
+	e         *actor.Engine
+	seq       atomic.Int64
+	arrive    chan *arrival
+	mu        sync.Mutex
+	log       []Entry
+	events    []Event
+	incs      map[string]int
+	pids      map[string]*actor.PID
+	inside    map[string]int
+	overlap   bool
+	seen      map[string][]mwSeen
+	base      []actor.MiddlewareFunc
+	cancelled context.Context
+	ctxs      map[string]context.Context
+	issued    []string
+	over      atomic.Bool
+	evCount   atomic.Int64
 }
 
 func (h *harness) pidOf(name string) *actor.PID {
@@ -249,15 +251,17 @@ func (r *rec) Receive(c *actor.Context) {
 	if h.inside[r.name] > 1 {
 		h.overlap = true
 	}
-	chain := h.chain[r.name]
-	h.chain[r.name] = nil
-	mwok := len(chain) == h.sc.MW && h.chainOK[r.name]
-	for i, v := range chain {
-		if v != i+1 {
+	seen := h.seen[r.name]
+	h.seen[r.name] = nil
+	mwok := len(seen) == h.sc.MW
+	for i, v := range seen {
+		if v.pos != i+1 || v.kind != kind || v.id != id || v.sender != c.Sender() {
+			mwok = false
+		}
+		if (i == h.sc.MW-1) != (v.owner == r.name) || (v.owner != "" && v.owner != r.name) {
 			mwok = false
 		}
 	}
-	h.chainOK[r.name] = true
 	h.mu.Unlock()
 
 	a := &arrival{g: Gate{r.name, r.inc, kind, id}, reply: make(chan grant, 1), ack: make(chan struct{}), seq: h.seq.Add(1)}
@@ -310,8 +314,11 @@ func (r *rec) Receive(c *actor.Context) {
 	h.log[idx].Exit = h.seq.Add(1)
 	h.inside[r.name]--
 	h.mu.Unlock()
-	if g.crash {
+	switch g.crash {
+	case "plain":
 		panic(fmt.Sprintf("injected fault in %s/%d %s %d", r.name, r.inc, kind, id))
+	case "internal":
+		panic(&actor.InternalError{From: "verif", Err: fmt.Errorf("injected internal error in %s/%d %s %d", r.name, r.inc, kind, id)})
 	}
 }
 
@@ -325,12 +332,40 @@ func (h *harness) producer(name string) actor.Producer {
 	}
 }
 
-func (h *harness) mw(name string, i int) actor.MiddlewareFunc {
+// Middleware.  Positions 1..k-1 of every chain are shared middlewares kept in ONE slice with spare capacity
+// (h.base) from which every actor's options are built; position k is a middleware owned by the actor.  Each
+// middleware records, for the actor whose delivery it wraps (taken from the Context), its position and the message
+// it saw.  A delivery is well wrapped iff exactly the positions 1..k were entered in this order, the last one by the
+// actor's own middleware, and every middleware saw the message and sender the receiver then sees.
+type mwSeen struct {
+	pos    int
+	owner  string
+	kind   string
+	id     int
+	sender *actor.PID
+}
+
+func (h *harness) note(c *actor.Context, pos int, owner string) {
+	kind, id := kindOf(c.Message())
+	name := h.nameOf(c.PID())
+	h.mu.Lock()
+	h.seen[name] = append(h.seen[name], mwSeen{pos, owner, kind, id, c.Sender()})
+	h.mu.Unlock()
+}
+
+func (h *harness) sharedMW(pos int) actor.MiddlewareFunc {
 	return func(next actor.ReceiveFunc) actor.ReceiveFunc {
 		return func(c *actor.Context) {
-			h.mu.Lock()
-			h.chain[name] = append(h.chain[name], i)
-			h.mu.Unlock()
+			h.note(c, pos, "")
+			next(c)
+		}
+	}
+}
+
+func (h *harness) ownMW(name string, pos int) actor.MiddlewareFunc {
+	return func(next actor.ReceiveFunc) actor.ReceiveFunc {
+		return func(c *actor.Context) {
+			h.note(c, pos, name)
 			next(c)
 		}
 	}
@@ -339,12 +374,12 @@ func (h *harness) mw(name string, i int) actor.MiddlewareFunc {
 func (h *harness) opts(name string) []actor.OptFunc {
 	o := []actor.OptFunc{actor.WithID(name), actor.WithMaxRestarts(h.cfg.Actors[name].MaxRestarts),
 		actor.WithRestartDelay(50 * time.Microsecond), actor.WithInboxSize(h.sc.Inbox)}
-	var mws []actor.MiddlewareFunc
-	for i := 1; i <= h.sc.MW; i++ {
-		mws = append(mws, h.mw(name, i))
+	if h.sc.MW > 0 {
+		o = append(o, actor.WithMiddleware(h.base[:h.sc.MW-1]...), actor.WithMiddleware(h.ownMW(name, h.sc.MW)))
 	}
-	if len(mws) > 0 {
-		o = append(o, actor.WithMiddleware(mws...))
+	if h.cfg.Actors[name].Parent == "" && h.sc.ID%2 == 1 {
+		// the spawn context is user data: a cancelled one must change nothing
+		o = append(o, actor.WithContext(h.cancelled))
 	}
 	return o
 }
@@ -410,11 +445,17 @@ func runScenario(cfg Config, sc Scenario) *Result {
 		panic(err)
 	}
 	h := &harness{cfg: cfg, sc: sc, e: e, arrive: make(chan *arrival, 64), incs: map[string]int{}, pids: map[string]*actor.PID{},
-		inside: map[string]int{}, chain: map[string][]int{}, chainOK: map[string]bool{}, ctxs: map[string]context.Context{}}
+		inside: map[string]int{}, seen: map[string][]mwSeen{}, ctxs: map[string]context.Context{}}
 	for n := range cfg.Actors {
 		h.pids[n] = h.pidOf(n)
-		h.chainOK[n] = true
 	}
+	h.base = make([]actor.MiddlewareFunc, 0, 8)
+	for i := 1; i <= 3; i++ {
+		h.base = append(h.base, h.sharedMW(i))
+	}
+	cctx, ccancel := context.WithCancel(context.Background())
+	ccancel()
+	h.cancelled = cctx
 	mon := e.SpawnFunc(h.monitor, "verifmon", actor.WithID("m"))
 	e.Subscribe(mon)
 	witness := e.SpawnFunc(func(c *actor.Context) {
@@ -557,8 +598,42 @@ func runScenario(cfg Config, sc Scenario) *Result {
 	for int(h.evCount.Load()) < sc.NEvents && time.Now().Before(deadline) {
 		time.Sleep(200 * time.Microsecond)
 	}
-	if res.Diverged {
-		h.drainUnsteered(pending, pollDone)
+	if res.Diverged || sc.Racy {
+		// unsteered, or steered through a race the code may have resolved the other way: nothing tells us when the
+		// engine is done; require two identical observations 60 ms apart
+		if res.Diverged {
+			h.drainUnsteered(pending, pollDone)
+		}
+		prev := ""
+		for k := 0; k < 20; k++ {
+			h.mu.Lock()
+			cur := fmt.Sprint(len(h.log), len(h.events), h.inside)
+			h.mu.Unlock()
+			for n := range cfg.Actors {
+				cur += fmt.Sprint(h.registered(n))
+			}
+			pollDone()
+			cur += fmt.Sprint(doneSet())
+			if cur == prev {
+				break
+			}
+			prev = cur
+			time.Sleep(60 * time.Millisecond)
+			if res.Diverged {
+				h.drainUnsteered(pending, pollDone)
+			} else {
+			collect:
+				for {
+					select {
+					case a := <-h.arrive:
+						pending[a.g.A] = a
+					default:
+						break collect
+					}
+				}
+				cur += fmt.Sprint(gatesOf(pending))
+			}
+		}
 	}
 	// every granted delivery has returned (only parked ones are still inside Receive)
 	for time.Now().Before(deadline) {
@@ -646,7 +721,9 @@ func main() {
 	only := flag.Int("only", -1, "run only the scenario with this id")
 	from := flag.Int("from", 0, "skip scenarios with a smaller id")
 	flag.Parse()
-	slog.SetDefault(slog.New(slog.NewTextHandler(io.Discard, nil)))
+	if os.Getenv("VERIF_SLOG") == "" {
+		slog.SetDefault(slog.New(slog.NewTextHandler(io.Discard, nil)))
+	}
 	settle = time.Duration(*settleMs) * time.Millisecond
 
 	f, err := os.Open(*in)
